@@ -61,6 +61,11 @@ func c20Alphabet() []*c20Shape {
 		{name: "expr-int", core: true, lines: []string{"vh.v(3, 7)"}, expr: "vh.v(3, 7)"},
 		{name: "expr-none", core: true, lines: []string{"vh.v(4, None)"}, expr: "vh.v(4, None)"},
 		{name: "expr-str", lines: []string{"vh.v(5, 'q\\'#') * 2  # '"}, expr: "vh.v(5, 'q\\'#') * 2"},
+		{name: "expr-literal-int", core: true, lines: []string{"17"}, expr: "17"},
+		{name: "expr-literal-str", lines: []string{"'abc'  # a literal on its own"}, expr: "'abc'"},
+		{name: "expr-literal-paren", lines: []string{"(7.5)"}, expr: "(7.5)"},
+		{name: "expr-literal-triple", lines: []string{"\"\"\"p", "q\"\"\""}, expr: "\"\"\"p\nq\"\"\""},
+		{name: "for-literal", lines: []string{"for i in range(vh.v(51, 2)):", "    'lit'"}},
 		{name: "expr-underscore", core: true, lines: []string{"_ + vh.v(6, 1)"}, expr: "_ + vh.v(6, 1)", usesU: true},
 		{name: "assign-from-underscore", lines: []string{"u = vh.v(7, 0); u = _"}, usesU: true},
 		{name: "semicolons", lines: []string{"a = vh.v(8, 2); b = a * 3; b"}},
@@ -987,9 +992,9 @@ func init() {
 	core.Register(&core.Check{
 		ID:    "C20",
 		Level: "model_checking",
-		Rule: "statement alphabet S of 55 shapes (one-line simple statements incl. bare expressions with None/non-None values, `_` uses, `;` lists, import, del; run-time and syntax errors incl. unexpected indent and an unterminated string; comment-only, empty and whitespace-only lines; " +
+		Rule: "statement alphabet S of 60 shapes (one-line simple statements incl. bare expressions with None/non-None values and bare number/string literals (one line, parenthesised, triple-quoted over two lines, inside a for block), `_` uses, `;` lists, import, del; run-time and syntax errors incl. unexpected indent and an unterminated string; comment-only, empty and whitespace-only lines; " +
 			"bracket/backslash/triple-quoted continuations over 2-3 physical lines incl. comment-only and blank lines inside brackets and strings; if/elif/else, for, while, def, decorator, class, 2-level nesting, tab indentation, try/finally, try/except, " +
-			"comment and whitespace-only lines and multi-line brackets/strings inside blocks, one-line compound statements, `else`/`except` clauses after a one-line `if`/`try`, a syntax error and an inconsistent dedent inside a block, a header without body, a try without handler, a decorator without definition); 32 of the shapes form the core sub-alphabet. " +
+			"comment and whitespace-only lines and multi-line brackets/strings inside blocks, one-line compound statements, `else`/`except` clauses after a one-line `if`/`try`, a syntax error and an inconsistent dedent inside a block, a header without body, a try without handler, a decorator without definition); 33 of the shapes form the core sub-alphabet. " +
 			"quick: ALL programs of 1..2 statements over S and ALL programs of 3 statements over the core; thorough: ALL programs of 1..3 statements over S and ALL programs of 4 statements over the core. " +
 			"Each program is fed to a real repl.REPL one physical line at a time with a blank line after every compound or continued statement; after every line the prompt, the UI output, stderr, the vh log and REPL.continuation/previous are recorded. " +
 			"Oracles: the same statements each compiled whole in single mode and run once in a fresh namespace (effects, echo, globals incl. `_` after every statement), the whole program run as a file in exec mode (error-free prefix, `_` excluded), " +
